@@ -1,0 +1,5 @@
+//go:build verif && arm64
+
+package dsp
+
+const verifIsArm64 = true
